@@ -765,3 +765,49 @@ pub fn special_scenario(rng: &mut Rng) -> Option<(Board, Vec<ChessMove>)> {
 }
 
 fn unsafe_sq(i: usize) -> Square { chess::ALL_SQUARES[i & 63] }
+
+// ------------------------------------------------------------------ no-move positions with extra men
+//
+// Stalemates (and mates) in which the side to move owns more than a bare king: pawns blocked by enemy
+// pawns, knights and bishops boxed in by their own immobile men, a king in a corner.  Found by
+// rejection sampling in a biased family (the crate only SELECTS candidates; the oracle is independent).
+
+pub fn synth_no_move_position(rng: &mut Rng, tries: usize) -> Option<Board> {
+    for _ in 0..tries {
+        let mut d = BD::empty();
+        let white = rng.chance(1, 2);
+        let (c, o) = if white { (Color::White, Color::Black) } else { (Color::Black, Color::White) };
+        let rk = |r: usize| if white { r } else { 7 - r };
+        // c's king near a corner / edge
+        let kf = [0usize, 0, 1, 6, 7, 7, rng.below(8)][rng.below(7)];
+        let kr = [0usize, 0, 0, 1, 7, rng.below(8)][rng.below(6)];
+        let ks = rk(kr) * 8 + kf;
+        d.sq[ks] = Some((Piece::King, c));
+        // blocked pawn pairs: c pawn with an o pawn right in front of it
+        for _ in 0..(1 + rng.below(4)) {
+            let f = rng.below(8);
+            let r = 1 + rng.below(5);
+            let (a, b) = (rk(r) * 8 + f, rk(r + 1) * 8 + f);
+            if d.sq[a].is_none() && d.sq[b].is_none() { d.sq[a] = Some((Piece::Pawn, c)); d.sq[b] = Some((Piece::Pawn, o)); }
+        }
+        // a knight or bishop of c close to its own king / pawns
+        for _ in 0..rng.below(3) {
+            let s = near(rng, ks, 2);
+            if d.sq[s].is_none() { d.sq[s] = Some(([Piece::Knight, Piece::Knight, Piece::Bishop][rng.below(3)], c)); }
+        }
+        // o: king and one to three pieces taking away the squares around c's king
+        let oks = near(rng, ks, 3);
+        if d.sq[oks].is_none() { d.sq[oks] = Some((Piece::King, o)); } else { continue; }
+        for _ in 0..(1 + rng.below(3)) {
+            let s = near(rng, ks, 3);
+            if d.sq[s].is_none() { d.sq[s] = Some(([Piece::Queen, Piece::Rook, Piece::Knight, Piece::Bishop, Piece::Queen][rng.below(5)], o)); }
+        }
+        d.stm = c;
+        if let Some(Some(b)) = guard(|| Board::try_from(&d.builder()).ok()) {
+            if b.is_sane() && moves_of(&b).map(|v| v.is_empty()).unwrap_or(false) && b.color_combined(c).popcnt() >= 3 {
+                return Some(b);
+            }
+        }
+    }
+    None
+}
